@@ -2,7 +2,8 @@
    Statements only; proofs are in Proofs/FlagsSim.v. *)
 From Coq Require Import List NArith ZArith Bool.
 From Abasic Require Import Model.Bytes Model.Num Model.Token Model.Data Model.Lexer Gen.Tables
-     Model.State Model.Eval Model.Interp Proofs.Monad Proofs.Frames Proofs.StoreProofs Proofs.FlagsSim.
+     Model.State Model.Eval Model.Interp Proofs.Monad Proofs.Frames Proofs.StoreProofs Proofs.Safety Proofs.FlagsSim
+     Proofs.TurnProofs Proofs.TraceProofs.
 Import ListNotations.
 
 (* [sim s t]: every field equal except the two flags, and the pending output
@@ -48,14 +49,41 @@ Theorem C17_cmds : forall fuel s, state s = Idle ->
   /\ enable_warnings (snd r1) = enable_warnings s /\ enable_warnings (snd r2) = enable_warnings s.
 Proof. exact trace_cmds_only_flag. Qed.
 
-(* Not proved here (validated by the correspondence, which compares the Trace
-   and Warning records themselves with the model's, and by the oracle): the
-   collapsed trace equals the line path (C17_trace_is_path) and warnings are
-   issued exactly on reads of never-assigned variables / non-existent arrays
-   (C17_warn_exact). *)
+(* The trace is the path.  With tracing on, a host call that executes a
+   statement of numbered line n pushes `Trace n` as its FIRST record, and every
+   other Trace record of the call names n too (C09: an IF's selected statement
+   traces again): collapsed, the call's trace is [n]; a call on the immediate
+   line pushes no Trace record.  So the Trace records of a run, read in order
+   with immediate repeats collapsed, name the numbered lines execution passes
+   through, call by call. *)
+Theorem C17_trace_first : forall fuel s n t,
+  wf s -> enable_tracing s = true -> loc_line (loc s) = Some n ->
+  nth_error (cur_toks s) (loc_idx (loc s)) = Some t ->
+  exists rest, outputs (snd (run_next_statement (S fuel) s)) = outputs s ++ OTrace n :: rest
+               /\ Forall (trace_ok (Some n)) rest /\ (length (filter shows rest) <= 1)%nat.
+Proof. exact traced_turn. Qed.
+
+Theorem C17_trace_is_path : forall fuel s n t,
+  wf s -> enable_tracing s = true -> loc_line (loc s) = Some n ->
+  nth_error (cur_toks s) (loc_idx (loc s)) = Some t ->
+  exists new, outputs (snd (run_next_statement (S fuel) s)) = outputs s ++ new /\ collapse (traces new) = [n].
+Proof. exact traced_turn_path. Qed.
+
+Theorem C17_no_trace_on_immediate : forall fuel s,
+  wf s -> loc_line (loc s) = None ->
+  exists new, outputs (snd (run_next_statement fuel s)) = outputs s ++ new /\ filter is_trace new = [].
+Proof. exact immediate_turn_untraced. Qed.
+
+(* Not proved here (validated by the correspondence, which compares the
+   Warning records themselves with the model's, and by the oracle): warnings
+   are issued exactly on reads of never-assigned variables / non-existent
+   arrays (C17_warn_exact). *)
 
 Print Assumptions C17_transparent.
 Print Assumptions C17_history.
 Print Assumptions C17_statement.
 Print Assumptions C17_expression.
 Print Assumptions C17_cmds.
+Print Assumptions C17_trace_first.
+Print Assumptions C17_trace_is_path.
+Print Assumptions C17_no_trace_on_immediate.
